@@ -120,6 +120,37 @@ def _canonical_walk(ctx: Ctx, rs: RuleSet, w):
            'the identity memo keeps the visited objects alive'
            if ok else 'the identity memo does not hold the objects whose ids '
            'it stores', ctx.loc(visit, visit.node))
+  # a further occurrence of a shared node is recorded with *which* node it
+  # is (the path that node was first reached by): two DAGs in which the same
+  # positions are shared, but with different partners, must not compare equal
+  gv_ = ctx.cfg(visit)
+  table_names = {s_.table.rsplit('.', 1)[-1] for s_ in sites}
+  hits = [n for n in gv_.nodes() if gv_.kind[n] == 'if' and any(
+      isinstance(c_, ast.Compare) and isinstance(c_.ops[0], (ast.In, ast.NotIn))
+      and unparse(c_.comparators[0]).rsplit('.', 1)[-1] in table_names
+      for c_ in ast.walk(gv_.stmt[n].test))]
+  alias_ok = False
+  for n in hits:
+    t_ = gv_.stmt[n].test
+    neg = any(isinstance(c_, ast.Compare) and isinstance(c_.ops[0], ast.NotIn)
+              for c_ in ast.walk(t_)) != (isinstance(
+                  t_, ast.UnaryOp) and isinstance(t_.op, ast.Not))
+    hit_body = gv_.stmt[n].orelse if neg else gv_.stmt[n].body
+    for st_ in walk_stmts(hit_body):
+      if isinstance(st_, ast.Call) and isinstance(
+          st_.func, ast.Attribute) and st_.func.attr in (
+              'append', 'add') and st_.args and any(
+                  isinstance(x_, ast.Subscript) and unparse(
+                      x_.value).rsplit('.', 1)[-1] in table_names
+                  for x_ in ast.walk(st_.args[0])):
+        alias_ok = True
+  rs.check(alias_ok, rule, f'{visit.qualname}:alias-recorded',
+           'a repeated occurrence of a shared node is recorded together with '
+           'the node it repeats' if alias_ok else
+           'a repeated occurrence of a shared node is skipped without a trace: '
+           'only the set of first-reached paths is compared, so Config(S, a, '
+           'b, a) == Config(S, a, b, b) for equal-valued a, b although the '
+           'built graphs share different objects', ctx.loc(visit, visit.node))
   tests = [unparse(n.test) for n in walk_function(visit.node)
            if isinstance(n, ast.If)]
   ok = any('is_memoizable' in t and 'is_internable' in t and 'not' in t
